@@ -84,7 +84,7 @@ func ruleC13(c *Ctx, r *Result) {
 		}
 	}
 	if gate == nil {
-		r.Viol("C13.1", name+"#max-dims-gate-missing", c.Pos(rz.Pos()), "no branch compares newDims[i] with maxDims[i] (>) and fails on excess")
+		r.ViolMissing(c, rz, "C13.1", name+"#max-dims-gate-missing", c.Pos(rz.Pos()), "no branch compares newDims[i] with maxDims[i] (>) and fails on excess")
 	} else {
 		r.Check(unlimitedEscape, "C13.1", name+"#unlimited-escape", c.InstrPos(gate), "the gate is skipped for Unlimited maximum dimensions")
 		// every effect is preceded by passing through the gate's loop: the loop header block dominates... use: the gate's block can reach the effect and
